@@ -409,7 +409,20 @@ func c02GenNatural(r *rand.Rand) *sim.Scn {
 	return s
 }
 
+// c02Long: a chain of n blocks (empty, non-empty and identical transaction lists mixed), nothing delivered
+// before the final phase (cfg final as in c02Body).
+func c02Long(n int, final int64) *sim.Scn {
+	s := &sim.Scn{Cfg: map[string]int64{"final": final}}
+	for i := 0; i < n; i++ {
+		s.Ops = append(s.Ops, sim.Op{K: "spec", A: []int64{1, 0, 2, 9, 3, 0, 8}[i%7]})
+	}
+	return s
+}
+
 func c02Gen(r *rand.Rand, tier string) *sim.Scn {
+	if r.IntN(60) == 0 {
+		return c02Long(65+r.IntN(140), r.Int64N(3))
+	}
 	if r.IntN(4) == 0 {
 		return c02GenNatural(r)
 	}
@@ -465,6 +478,9 @@ func TestC02(t *testing.T) {
 		Components:  map[string]string{"block.Manager follower loops (Retrieve, HeaderStoreRetrieve, DataStoreRetrieve, Sync)": "real", "pkg/cache": "real (files in a scratch dir)", "pkg/store": "real", "proposer": "real aggregator", "P2P stores": "stub (P2PStore)", "DA": "stub (SimDA)", "executor": "stub (SimExec)"},
 		Gen:         c02Gen,
 		Run:         c02Run,
+		// directed: long chains whose parts arrive in one burst (a node that was partitioned or joins late):
+		// everything over P2P only, everything over DA only, and mixed
+		Directed: []*sim.Scn{c02Long(150, 2), c02Long(150, 1), c02Long(97, 0)},
 		QuickBudget: 30 * time.Second, ThoroughBudget: 12 * time.Minute,
 	})
 }
